@@ -6,7 +6,7 @@
    disjoint, none before lo; [ssum vss x] = the sum over the streams vss of their value at base x (0 where absent);
    [nz_opt z] = None when z = 0, Some z otherwise. *)
 From BT Require Import Base.Util Model.Merge Model.Fill Model.MergeTool
-  Proofs.MergeSig Proofs.MergeInto Proofs.MergeWin Proofs.MergeMany Proofs.FillOk Proofs.MergeToolOk Proofs.MergeToolRun Generated.Consts.
+  Proofs.MergeSig Proofs.MergeInto Proofs.MergeWin Proofs.MergeMany Proofs.FillOk Proofs.MergeToolOk Proofs.MergeToolRun Proofs.MergeManyCode Generated.Consts.
 Local Open Scope N_scope.
 
 (* ------------------------------------------------------------------ merge_into *)
@@ -53,7 +53,7 @@ Theorem C15_merge_many_code_window : forall vss, Forall (sorted_from 0) vss ->
   exists out, merge_sections_many MERGE_DATA_SIZE (map (map IV) vss) = Ok (map IV out) /\
     sorted_from 0 out /\ Forall (fun v => v_val v <> 0%Z) out /\
     forall x, sig out x = nz_opt (ssum vss x).
-Proof. intros vss. apply merge_many_ok. reflexivity. Qed.
+Proof. exact merge_many_code_window. Qed.
 Print Assumptions C15_merge_many_code_window.
 
 (* non-vacuity: three streams, W = 4: window crossings, a cancelling stretch [2,3), an explicit zero, a short stream;
@@ -82,7 +82,7 @@ Print Assumptions C15_fill_start_to_end.
 (* consequence for the per-base signal: adding zeros changes no base's sum, and a tiling covers exactly [s, e) *)
 Theorem C15_fill_signal : forall ins outs s e, zeros_added ins outs -> tiles s e outs ->
   forall x, sigz outs x = sigz ins x /\ cov outs x = (s <=? x) && (x <? e).
-Proof. intros ins outs s e Hz Ht x. split; [apply zeros_added_sigz; exact Hz|apply tiles_cov; exact Ht]. Qed.
+Proof. exact fill_signal. Qed.
 Print Assumptions C15_fill_signal.
 
 Example C15_fill_example :
@@ -141,11 +141,7 @@ Theorem C15_output_names : forall stem suf t name,
   detect_output None (stem ++ [46; 98; 119]) = Some OBigWig /\
   detect_output None (stem ++ [46; 98; 105; 103; 87; 105; 103]) = Some OBigWig /\
   detect_output None (stem ++ [46; 98; 101; 100; 71; 114; 97; 112; 104]) = Some OBedGraph.
-Proof.
-  intros stem suf t name.
-  exact (conj (proj1 (detect_suffix stem suf)) (conj (proj2 (detect_suffix stem suf))
-        (conj (proj1 (detect_type t name)) (conj (proj2 (detect_type t name)) (detect_documented stem))))).
-Qed.
+Proof. exact detect_all. Qed.
 Print Assumptions C15_output_names.
 
 (* ------------------------------------------------------------------ the merge tool, a whole run *)
